@@ -63,7 +63,31 @@ func main() {
 			}()
 			p.Run(c)
 		}()
-		os.Exit(finish(c, p, *verif, seed, t0, nil))
+		var extra map[string]any
+		rc := 0
+		if *tier == "thorough" {
+			mres := runMutants(*repo, *verif, p.ID)
+			det, app := 0, 0
+			for _, m := range mres {
+				if m.Applied {
+					app++
+					if m.Detected {
+						det++
+					} else {
+						fmt.Printf("tmsa: checker regression: breaking change %s is no longer reported by %s\n", m.Name, p.ID)
+						rc = 2
+					}
+				}
+			}
+			extra = map[string]any{"mutants": mres, "mutants_total": len(mres), "mutants_applied": app, "mutants_detected": det,
+				"mutants_rule": "each listed breaking change (reverted fix, hand-written mutant, or independently seeded regression) is applied to a scratch copy of /repo and the property's rules are re-run on the copy; all applied ones must be reported"}
+			fmt.Printf("thorough: %d breaking changes applied to scratch copies, %d reported\n", app, det)
+		}
+		frc := finish(c, p, *verif, seed, t0, extra)
+		if frc == 0 && rc != 0 {
+			frc = rc
+		}
+		os.Exit(frc)
 	default:
 		fmt.Fprintln(os.Stderr, "tmsa: unknown command", os.Args[1])
 		os.Exit(2)
